@@ -174,6 +174,7 @@ static void rec_lut (FILE* o, bool thorough)
         {0x0000, 0x3c00, 70001, 70002, 70003, 70004},   // [0, 1]: -0 is in the domain, values compare
         {0x8000, 0x3c00, 70011, 70012, 70013, 70014},   // [-0, 1]
         {0xbc00, 0x0001, 70021, 70022, 70023, 70024},   // [-1, min subnormal]
+        {0xbc00, 0x8000, 70081, 70082, 70083, 70084},   // [-1, -0]: +0 is in the domain
         {0x3c01, 0x3c01, 70031, 70032, 70033, 70034},   // a single point
         {0x4000, 0x3c00, 70041, 70042, 70043, 70044},   // empty domain (min > max)
     };
